@@ -73,6 +73,106 @@ theorem finalize_ok_means_gone (br : BR) (op : Op) (c : Cfg) (w : World) (exp : 
         exact hx2 x hmem hxf rfl
   · rfl
 
+/-- **C06 `initialize_single_canary`, one call** — a Deployment appears only in `Initialize`, at most one per
+    call, only when no active Deployment owned by this BatchRelease has the stable Deployment's current pod
+    template (re-discovery by owner + template, not by a remembered name), and what is created is a
+    well-formed canary: owned, finalizer set, 0 replicas, un-paused, and itself matching the template — so
+    the next `Initialize` finds it.  For every fault index and expectation state. -/
+theorem create_guarded (br : BR) (op : Op) (c : Cfg) (w : World) (exp : Exp)
+    (hnd : namesNodup w = true) :
+    createGuarded br op w (call br op c w exp) = true := by
+  unfold createGuarded
+  have hndw := (namesNodup_iff w).mp hnd
+  obtain ⟨id, f, ids, hf, hwhich, hids, hworld⟩ := call_shape br op c w exp
+  have hp : Pres f := which_pres hwhich
+  rcases hworld with h | ⟨hop, hids0, st, cd, hst, hnew, hnone, h, hres⟩
+  · have hnil : newDeps w (call br op c w exp).w = [] := by
+      unfold newDeps
+      rw [List.filter_eq_nil_iff]
+      intro d' hd'
+      rcases mem_after (P := fun _ => False) hf hndw (Or.inl h) hd' with ⟨d, _, _, hfind⟩ | ⟨_, hF, _⟩
+      · simp [hfind]
+      · exact hF.elim
+    rw [hnil]
+  · subst hop
+    obtain ⟨tp, htp, hcd⟩ := newCanary_some hnew
+    have hcdname : cd.name = w.maxName + 1 := by rw [hcd]; simp [maxName_modify _ _ _ hf]
+    have hone : newDeps w (call br .init c w exp).w = [cd] := by
+      unfold newDeps
+      rw [h]
+      unfold World.add
+      rw [List.filter_append]
+      have h1 : List.filter (fun d => (w.find d.name).isNone) (w.modify id f).deps = [] := by
+        rw [List.filter_eq_nil_iff]
+        intro x hx
+        unfold World.modify at hx
+        obtain ⟨d, hd, rfl⟩ := List.mem_map.mp hx
+        have : (if d.name = id then f d else d).name = d.name := by split <;> simp [hf]
+        rw [this, find_of_mem hndw hd]; simp
+      have h2 : List.filter (fun d => (w.find d.name).isNone) [cd] = [cd] := by
+        simp [hcdname, find_fresh w]
+      rw [h1, h2]; rfl
+    rw [hone]
+    dsimp only
+    have hmc := matchCount_zero_of_none hf hp hst hnone
+    have hkey : st.name = br.key := (find_some hst).2
+    have hfindkey : (call br .init c w exp).w.find br.key = some st := by
+      rw [h, find_add, hst]
+    have hmatch : matching br (call br .init c w exp).w cd = true := by
+      unfold matching
+      rw [hfindkey, hcd]
+      simp [owned, eqIgnore_patched htp]
+    have hwf : wellFormedCanary br (call br .init c w exp).w cd = true := by
+      unfold wellFormedCanary
+      rw [hmatch, hcd]
+      simp [hkey]
+    simp [hmc, hwf]
+
+/-- **C06**, one call — the number of active canary Deployments for the current template never grows beyond
+    one (if there were several to begin with, it does not grow at all). -/
+theorem single_canary (br : BR) (op : Op) (c : Cfg) (w : World) (exp : Exp)
+    (hnd : namesNodup w = true) :
+    singleCanary br w (call br op c w exp) = true := by
+  unfold singleCanary
+  apply decide_eq_true
+  have hndw := (namesNodup_iff w).mp hnd
+  obtain ⟨id, f, ids, hf, hwhich, hids, hworld⟩ := call_shape br op c w exp
+  have hp : Pres f := which_pres hwhich
+  let P : Dep → Prop := fun cd => op = .init ∧ (call br op c w exp).res = .err ∧
+      ∃ st, (w.modify id f).find br.key = some st ∧ newCanary br st (w.modify id f) = some cd ∧
+        filterCanary br (filterActive (ownedDeps (w.modify id f))) (some st.template) = none
+  have hafter : After w id f ids P (call br op c w exp).w := shape_after hf hworld
+  have hstable : ∀ cd, P cd → (w.find br.key).isSome := by
+    rintro cd ⟨_, _, st, hst, _⟩
+    rw [find_modify _ _ _ _ hf] at hst
+    cases hw : w.find br.key with
+    | none => rw [hw] at hst; cases hst
+    | some _ => rfl
+  have hold : ∀ ids', After w id f ids' P (call br op c w exp).w →
+      ((w.deps.filterMap (eff id f ids')).filter (matching br (call br op c w exp).w)).length ≤ matchCount br w := by
+    intro ids' ha
+    unfold matchCount
+    apply filter_filterMap_length_le
+    intro d _ d' he hm
+    exact matching_after hf hp hndw ha hstable he hm
+  rcases hworld with h | ⟨hop, hids0, st, cd, hst, hnew, hnone, h, hres⟩
+  · have := hold ids hafter
+    have hd : (call br op c w exp).w.deps = w.deps.filterMap (eff id f ids) := by rw [h, effW_deps]
+    unfold matchCount at this ⊢
+    rw [hd]
+    omega
+  · subst hids0
+    have := hold [] hafter
+    have hmc := matchCount_zero_of_none hf hp hst hnone
+    have hd : (call br op c w exp).w.deps = w.deps.filterMap (eff id f []) ++ [cd] := by
+      rw [h]; unfold World.add; rw [modify_deps_eff]
+    have hle : (List.filter (matching br (call br op c w exp).w) [cd]).length ≤ 1 := by
+      simp only [List.filter_cons]; split <;> simp
+    unfold matchCount at ⊢
+    rw [hd, List.filter_append, List.length_append]
+    unfold matchCount at this hmc
+    omega
+
 /-! ## C05 — `Finalize` releases the stable Deployment -/
 
 /-- **C05 `finalize_releases_stable`** — after a successful `Finalize` the stable Deployment, if it
@@ -110,6 +210,57 @@ theorem finalize_releases_stable (br : BR) (op : Op) (c : Cfg) (w : World) (exp 
         | some st' =>
           rcases dropFn_some hdf with h | ⟨_, h⟩ <;> subst h <;> simp [releaseStable]
   · rfl
+
+/-- **C05** — no call changes anything of the stable Deployment except its control-info annotation and
+    `spec.paused` (and the generation the API server bumps with it): template, replicas, strategy, owner,
+    finalizers stay as the user configured them; `paused` changes only in `Finalize`, control-info only in
+    `Initialize` / `Finalize`.  (A stable Deployment that is itself owned by the BatchRelease is outside.) -/
+theorem stable_frame (br : BR) (op : Op) (c : Cfg) (w : World) (exp : Exp)
+    (hnd : namesNodup w = true) :
+    stableFrame br op w (call br op c w exp) = true := by
+  unfold stableFrame
+  cases hst : w.find br.key with
+  | none => rfl
+  | some st =>
+    dsimp only
+    have hndw := (namesNodup_iff w).mp hnd
+    obtain ⟨hmem, hname⟩ := find_some hst
+    obtain ⟨id, f, ids, hf, hwhich, hids, hworld⟩ := call_shape br op c w exp
+    have hafter := shape_after hf hworld
+    have hfind := find_after hf hndw hafter hmem
+    rw [hname] at hfind
+    rw [hfind]
+    by_cases hown : st.owner = .this
+    · cases eff id f ids st <;> simp [hown]
+    · -- an un-owned Deployment is not among the finalizer removals, nor the selected canary
+      have howner : (if st.name = id then f st else st).owner = st.owner := by
+        rcases hwhich with rfl | ⟨_, _, rfl⟩ | ⟨_, _, rfl⟩ | ⟨_, cd, t, cur, st', _, rfl, _⟩ <;> split <;> rfl
+      have hnin : (if st.name = id then f st else st).name ∉ ids := by
+        rcases hids with rfl | ⟨_, hids⟩
+        · simp
+        · intro hin
+          have hn : (if st.name = id then f st else st).name = st.name := by split <;> simp [hf]
+          rw [hn] at hin
+          have := (ids_owned hf hndw hids hmem hin).1
+          rw [howner] at this
+          exact hown this
+      have heff : eff id f ids st = some (if st.name = id then f st else st) := by
+        unfold eff dropFn; simp [hnin]
+      rw [heff]
+      dsimp only
+      rcases hwhich with rfl | ⟨hop, rfl, rfl⟩ | ⟨hop, rfl, rfl⟩ | ⟨hop, cd, t, cur, st', rfl, rfl, _, _, hsel, _⟩
+      · simp
+      · rw [if_pos hname]; simp [setCtrl, hop]
+      · rw [if_pos hname]; simp [releaseStable, hop]
+      · obtain ⟨hcd, hcdo, _⟩ := selectCanary_mem hsel
+        have hne : st.name ≠ cd.name := by
+          intro he
+          have h1 := find_of_mem hndw hmem
+          have h2 := find_of_mem hndw hcd
+          rw [he, h2] at h1
+          cases h1
+          exact hown hcdo
+        simp [hne]
 
 /-! ## C18 — the finalizer on canary Deployments is removed only by `Finalize` -/
 
